@@ -1513,7 +1513,7 @@ fn stmt_shape(st: &syn::Stmt) -> String {
             syn::Expr::Field(f) => root(&f.base),
             syn::Expr::Unary(u) => root(&u.expr),
             syn::Expr::Paren(p) => root(&p.expr),
-            syn::Expr::MethodCall(m) => format!("{}.{}", root(&m.receiver), m.method),
+            syn::Expr::MethodCall(m) => root(&m.receiver),
             syn::Expr::Call(c) => root(&c.func),
             syn::Expr::Reference(r) => root(&r.expr),
             _ => String::new(),
